@@ -22,9 +22,9 @@ Open Scope N_scope.
      the whole document is read to a DOM first: every escape sequence is checked and a number that overflows
        binary64 is an error wherever it stands                                  [native parse_with_padding, Parser.parse]
      ill-formed UTF-8 and raw control characters inside strings: outside the model          [node.go: AsStr]
-     slices: one allocation for the final length, reusing the old array only when its capacity suffices;
-       []string / []int32.. / []int64.. decoders refuse null elements          [slice.go, rt.MakeSlice, node.go: AsSliceString..]
-     map[string]string refuses null values                                     [map.go: mapStringDecoder]
+     slices: one allocation for the final length, reusing the old array only when its capacity suffices
+                                                                               [slice.go, rt.MakeSlice]
+     map[string]string stores the zero string on null, also over an existing entry  [map.go: mapStringDecoder, node.go: AsMapString]
      integer map keys are parsed by strconv                                    [map.go]
      SONIC_USE_FASTMAP: interface{} maps with duplicate keys are outside the model          [node.go: AsEfaceFast] *)
 Inductive impl := Jit | Opt | OptFast.
@@ -239,10 +239,8 @@ Section Sonic.
         | _ =>
           if is_opt im then
             (* sliceDecoder / rt.MakeSlice: the old array is reused when its capacity suffices, otherwise the
-               visible elements are copied into a new one (the hidden ones are lost); the specialised decoders
-               for string and 32/64-bit integer elements refuse null *)
-            if fast_slice_elem e && existsb (fun x => match x with JNull => true | _ => false end) l then Err
-            else
+               visible elements are copied into a new one (the hidden ones are lost); since fix ea591a6 the
+               specialised decoders leave an element alone on null, like the generic one *)
               let old' := if Nat.leb (length l) (length old) then old
                           else match v with VList vis _ => vis | _ => [] end in
               do news <- bind_elems (sonic_bind e) (zero e) l old'; Ok (VList news (skipn (length l) old'))
@@ -272,7 +270,8 @@ Section Sonic.
                      do kv <- sonic_key k kb;
                      (* mapassign returns the slot of an existing key: the element is decoded over the old one *)
                      let cur := match map_get acc kv with Some x0 => x0 | None => zero e end in
-                     if is_opt im && (match k, e, x with KStr, TStr, JNull => true | _, _, _ => false end) then Err   (* mapStringDecoder *)
+                     if is_opt im && (match k, e, x with KStr, TStr, JNull => true | _, _, _ => false end)
+                     then go r (map_set acc kv (VStr []))          (* mapStringDecoder (ea591a6): null stores the zero string *)
                      else
                      do ev <- sonic_bind e x cur;
                      go r (map_set acc kv ev)
